@@ -9,6 +9,7 @@ import (
 	"strconv"
 	"strings"
 	"time"
+	_ "time/tzdata" // the zone database inside the binary: a named zone loads whatever the machine has installed
 
 	"github.com/metrico/cloki-config/config"
 	"github.com/metrico/qryn/reader/logql/logql_parser"
@@ -31,6 +32,10 @@ type Ctx struct {
 	Type     uint8 `json:"type"`
 	Finalize bool  `json:"finalize"` // Plan(script, finalize)
 	StepMs   int64 `json:"step_ms"`
+	// TZ: the zone of the reader PROCESS for this case (IANA name, as the environment variable TZ would set it; "" = the
+	// zone the harness process started with). The services build the window with time.Unix(0, ns), a time in that zone;
+	// the planner model has no such parameter: the statement must not depend on it (C07 round 6, seeded C07-f).
+	TZ string `json:"tz,omitempty"`
 }
 
 type Case struct {
@@ -246,6 +251,71 @@ func floatValText(v float64) string {
 
 // ---------------------------------------------------------------- run one case
 
+// procLocal: the zone the harness process started with (TZ of the environment)
+var procLocal = time.Local
+
+// setZone makes name the zone of the process for the next case, exactly as starting the reader with TZ=name does
+// (package time initialises time.Local from TZ once): time.Unix, time.Now and every Format of such a value follow it.
+func setZone(name string) error {
+	if name == "" {
+		time.Local = procLocal
+		return nil
+	}
+	loc, err := time.LoadLocation(name)
+	if err != nil {
+		return err
+	}
+	time.Local = loc
+	return nil
+}
+
+// zoneOffset: seconds east of UTC of zone name at the instant ns
+func zoneOffset(name string, ns int64) int64 {
+	loc, err := time.LoadLocation(name)
+	if err != nil {
+		panic(err)
+	}
+	_, off := time.Unix(0, ns).In(loc).Zone()
+	return int64(off)
+}
+
+// zoneCase gives one case in `share` a process zone, from a PRNG stream of its own (the other choices of the generator
+// do not move); half of those get a window that starts next to the UTC midnight on the side where the calendar day of
+// the zone (30 minutes before the start, the margin of FormatFromDate) is not the UTC day - a quarter exactly on the
+// edge: the instant whose local time is 00:30, one nanosecond before, one after.
+func zoneCase(seed int64, id int, zones []string, share int, c *Ctx) {
+	if share <= 0 || len(zones) == 0 {
+		return
+	}
+	rz := hx.Rand(seed*65537 + int64(id)*31 + 7)
+	if rz.Intn(share) != 0 {
+		return
+	}
+	c.TZ = zones[rz.Intn(len(zones))]
+	if rz.Intn(2) == 0 {
+		return
+	}
+	span := c.ToNs - c.FromNs
+	day := int64(19700 + rz.Intn(30))
+	off := zoneOffset(c.TZ, day*86400*1e9)
+	// the local day of (start - 30 min) changes at the UTC time of day edge = 00:30 - offset
+	edge := ((1800-off)%86400 + 86400) % 86400
+	var tod int64 // nanoseconds into the UTC day
+	switch k := rz.Intn(4); {
+	case k == 0:
+		tod = edge*1e9 + int64(rz.Intn(3)-1)
+	case off >= 0: // east: from the edge to the end of the UTC day the zone is already on tomorrow
+		tod = (edge + int64(rz.Intn(int(86400-edge)))) * 1e9
+		if edge == 1800 { // UTC itself: the first hour after midnight, as the generator always did
+			tod = int64(rz.Intn(3600)) * 1e9
+		}
+	default: // west: from 00:30 UTC to the edge the zone is still on yesterday
+		tod = (1800 + int64(rz.Intn(int(edge-1800)))) * 1e9
+	}
+	c.FromNs = day*86400*1e9 + tod
+	c.ToNs = c.FromNs + span
+}
+
 func mkCtx(c Ctx) *shared.PlannerContext {
 	pc := &shared.PlannerContext{
 		IsCluster:  c.Cluster,
@@ -272,6 +342,11 @@ func run(c *Case) {
 		c.Err, c.ErrText = "parse", err.Error()
 		return
 	}
+	if err := setZone(c.Ctx.TZ); err != nil {
+		c.Err, c.ErrText = "zone", err.Error()
+		return
+	}
+	defer setZone("")
 	pc := mkCtx(c.Ctx)
 	c.CtxCoq = dumpCtx(coqx.Coq, c.Ctx, pc)
 	c.CtxML = dumpCtx(coqx.ML, c.Ctx, pc)
@@ -359,6 +434,8 @@ func run(c *Case) {
 func main() {
 	mode := flag.String("mode", "log", "log: log queries (C07/C13/C14); metric: metric queries (C08); metricdb: metric queries with databases (C08); tpl: line_format templates alone")
 	ndbs := flag.Int("dbs", 3, "databases per case (metricdb)")
+	zonesFlag := flag.String("zones", "", "log mode: comma-separated IANA zones; one case in --zone-share runs with the process zone set to one of them (ctx.tz)")
+	zoneShare := flag.Int("zone-share", 3, "log mode with --zones: one case in this many gets a zone")
 	f := hx.ParseFlags()
 	out := hx.OpenOut(f.Out)
 	defer out.Close()
@@ -427,6 +504,9 @@ func main() {
 			Limit: []int64{0, 1, 100, 5000}[r.Intn(4)], Asc: r.Intn(2) == 0, Cluster: r.Intn(4) == 0,
 			Type: []uint8{0, 1, 1, 2}[r.Intn(4)], Finalize: r.Intn(5) != 0, StepMs: 1000,
 		}}
+		if *zonesFlag != "" {
+			zoneCase(f.Seed, i, strings.Split(*zonesFlag, ","), *zoneShare, &c.Ctx)
+		}
 		if strings.Contains(q, "|~") || strings.Contains(q, "!~") || r.Intn(6) == 0 {
 			c.Runs = 1 + r.Intn(3)
 		}
